@@ -278,6 +278,15 @@ def _as_uvec3(ip, st, t, a, rt):
     return I.St('glam::UVec3', 'UVec3', {'x': nf.fn_app('trunc', p[0]), 'y': nf.fn_app('trunc', p[1]), 'z': nf.fn_app('trunc', p[2])})
 
 
+@reg('glam::UVec3::as_ivec3', 'glam::IVec3::as_uvec3')
+def _as_ivec3(ip, st, t, a, rt):
+    """Integer-to-integer component casts (glam u32/uvec3.rs `as_ivec3`: `self.x as i32, ..`): the integer model has no width, like `as` between integers."""
+    v = deref(a[0])
+    to = 'IVec3' if 'as_ivec3' in (t.get('callee') or '') else 'UVec3'
+    ety = 'i32' if to == 'IVec3' else 'u32'
+    return I.St('glam::' + to, to, {c: as_rf(I.get_field(v, c, ety)) for c in 'xyz'})
+
+
 @reg('glam::DVec3::extend')
 def _extend(ip, st, t, a, rt):
     p = c3(a[0])
@@ -842,6 +851,11 @@ def call_fn_value(ip, f, args, rt):
     if isinstance(fv, I.St) and isinstance(fv.adt, str) and fv.adt.startswith('closure:'):
         return ip.call_closure(fv, f if isinstance(f, I.Ref) else None, I.tup(*args), rt)
     if isinstance(fv, I.FnItem):
+        h = lookup(fv.path, None)
+        if h is not None:
+            r = h(ip, None, {'callee': fv.path, 'resolved': fv.path}, args, rt)
+            if r is not NotImplemented:
+                return r
         return ip.call_path(fv.path, args, rt, None, None)
     raise I.AnalysisIncomplete('call of non-function value %r' % (fv,))
 
@@ -883,6 +897,71 @@ def _big_sub_assign(ip, st, t, a, rt):
     ref = a[0]
     I.write_lv(ref.lv, as_rf(deref(ref)) - as_rf(deref(a[1])))
     return I.tup()
+
+
+@regx(r'^(?=.*malachite).*Square.*::square$')
+def _big_square(ip, st, t, a, rt):
+    """malachite's `Square::square` on an Integer or a reference to one: x * x (malachite-base num/arithmetic/traits.rs: "Squares a number")."""
+    x = as_rf(deref(a[0]))
+    return x * x
+
+
+# --- a constant range of a fixed-size array, and sums over its elements (`v[..3].iter().map(f).sum()`) ------------------------------
+@reg('std::array::<impl std::ops::Index<I> for [T; N]>::index')
+def _array_range_index(ip, st, t, a, rt):
+    arr = deref(a[0])
+    rg = deref(a[1])
+    if not (isinstance(arr, I.St) and arr.adt == 'array' and isinstance(rg, I.St) and isinstance(rg.adt, str)):
+        return NotImplemented
+    n = len(arr.fields)
+    kind = rg.adt.rsplit('::', 1)[-1].split('<')[0]
+    def cst(name, dflt):
+        v = rg.fields.get(name)
+        if v is None:
+            return dflt
+        if isinstance(v, RF) and v.is_const():
+            return int(v.const_value())
+        raise KeyError(name)
+    try:
+        if kind == 'RangeTo':
+            lo, hi = 0, cst('end', None)
+        elif kind == 'Range':
+            lo, hi = cst('start', None), cst('end', None)
+        elif kind == 'RangeFrom':
+            lo, hi = cst('start', None), n
+        elif kind == 'RangeFull':
+            lo, hi = 0, n
+        else:
+            return NotImplemented
+    except KeyError:
+        return NotImplemented
+    if lo is None or hi is None:
+        return NotImplemented
+    if not (0 <= lo <= hi <= n):
+        raise I.Diverge()
+    return ip.ref_to(I.arr([I.get_index(arr, RF.const(i)) for i in range(lo, hi)]))
+
+
+@reg('std::iter::Iterator::sum')
+def _iter_sum(ip, st, t, a, rt):
+    """Sum of a statically known, short sequence: `arr.iter().sum()` / `arr.iter().map(f).sum()` (Sum for numeric types folds with `+` from zero;
+    the exact ring and the reals are commutative, the order of floating additions is the slice order)."""
+    v = deref(a[0])
+    f = None
+    if isinstance(v, I.Sym) and v.atom.kind == 'app' and v.atom.name == 'call:std::iter::Iterator::map' and len(v.atom.args) == 2:
+        inner, f = v.atom.args
+    else:
+        inner = v
+    elems = _fixed_elems(inner)
+    if elems is None:
+        return NotImplemented
+    total = RF.const(0)
+    for e in elems:
+        x = call_fn_value(ip, f, [ip.ref_to(e)], rt) if f is not None else deref(e)
+        if not isinstance(x, RF):
+            return NotImplemented
+        total = total + x
+    return total
 
 
 # --- TypeId ---------------------------------------------------------------------------------
